@@ -17,7 +17,7 @@ META = {"__path__", "__orig__", "__default_config__"}
 
 
 STR_KINDS = ("str", "optstr")
-DECOY = {"scalar": 424242, "str": 424242, "optstr": 424242, "list": [424242], "dict": {"zz": 424242}}
+DECOY = {"scalar": 424242, "str": 424242, "optstr": 424242, "list": [424242], "nlist": [424242], "dict": {"zz": 424242}}
 
 
 def pyval(v, kind):
@@ -95,6 +95,21 @@ def run_case(case, root):
     from typing import Optional
 
     types = {"scalar": int, "str": str, "optstr": Optional[str], "list": List[int], "dict": Dict[str, int]}
+
+    def add_arg(p, d):
+        default = d["default"]
+        if isinstance(default, (list, dict)):
+            default = json.loads(json.dumps(default))
+        if d["kind"] == "nlist":
+            p.add_argument("--" + d["key"], type=int, nargs="+", default=default)
+        else:
+            p.add_argument("--" + d["key"], type=types[d["kind"]], default=pyval(default, d["kind"]))
+
+    def env_text(value, kind):
+        if kind == "nlist" and case.get("env_bare") and len(value) == 1:
+            return str(value[0])
+        return scalar_text(value, kind)
+
     sub = case.get("sub")
     kinds = {d["key"]: d["kind"] for d in case["parser"]}
     subkinds = {}
@@ -136,6 +151,12 @@ def run_case(case, root):
         else:
             kwargs["env_prefix"] = False
             prefix = ""
+        hist = case.get("history")
+        if hist:
+            # the parser starts its life with other settings; see "history" below
+            kwargs["prog"] = "app.py"
+            kwargs["default_env"] = hist["old_default_env"]
+            kwargs["env_prefix"] = {"OLD": "OLD", "prog": True, "none": False}[hist["old_prefix"]]
         parser = ArgumentParser(**kwargs)
         decls = case["parser"]
         cfg_pos = case["cfg_pos"] % (len(decls) + 1)
@@ -151,10 +172,26 @@ def run_case(case, root):
             if n == cfg_pos:
                 parser.add_argument("--cfg", action=ActionConfigFile)
             if d is not None:
-                default = d["default"]
-                if isinstance(default, (list, dict)):
-                    default = json.loads(json.dumps(default))
-                parser.add_argument("--" + d["key"], type=types[d["kind"]], default=pyval(default, d["kind"]))
+                add_arg(parser, d)
+
+        if hist:
+            oldp = {"OLD": "OLD", "prog": "app", "none": ""}[hist["old_prefix"]]
+            for dd in decls:
+                setenv(env_name(oldp, dd["key"]), scalar_text(DECOY[dd["kind"]], dd["kind"]))
+            try:
+                if hist["warm"] == "env":
+                    parser.parse_env()
+                elif hist["warm"] == "args":
+                    parser.parse_args([], env=True)
+                elif hist["warm"] == "string":
+                    parser.parse_string("{}", env=True)
+                else:
+                    parser.parse_object({}, env=True)
+            except BaseException as ex:  # noqa: BLE001 - the warm-up answer is not what is observed
+                if isinstance(ex, KeyboardInterrupt):
+                    raise
+            parser.env_prefix = {"str": "APP", "prog": True, "none": False}[prefix_mode]
+            parser.default_env = case["default_env"]
 
         # one level of subcommands: the chosen one (its keys are observed as "<name>.<key>") and a bystander
         if sub:
@@ -164,10 +201,7 @@ def run_case(case, root):
                 if has_cfg:
                     sp.add_argument("--cfg", action=ActionConfigFile)
                 for d in sdecls:
-                    default = d["default"]
-                    if isinstance(default, (list, dict)):
-                        default = json.loads(json.dumps(default))
-                    sp.add_argument("--" + d["key"], type=types[d["kind"]], default=pyval(default, d["kind"]))
+                    add_arg(sp, d)
                 subparsers[nm] = sp
             subcommands = parser.add_subcommands()
             for nm in (sorted(subparsers) if sub.get("sorted") else [sub["name"], sub["other"]["name"]]):
@@ -190,10 +224,12 @@ def run_case(case, root):
             e = case["envcfg"]
             environ[env_name(prefix, "cfg")] = envcfg_value = cfg_value(e["doc"], e["as"], e["fmt"])
         for key, value in case["envvars"]:
-            environ[env_name(prefix, key)] = scalar_text(value, kinds[key])
+            environ[env_name(prefix, key)] = env_text(value, kinds[key])
         if sub:
             for key, value in sub["envvars"]:
-                environ[env_name(prefix, sub["name"] + "." + key)] = scalar_text(value, subkinds[key])
+                environ[env_name(prefix, sub["name"] + "." + key)] = env_text(value, subkinds[key])
+            if sub.get("envsub") is not None:
+                environ[env_name(prefix, "subcommand")] = sub["envsub"]
 
         entry = case["entry"]
         env_arg = case["env_arg"]
@@ -232,6 +268,9 @@ def run_case(case, root):
                     continue
                 a = it["asg"]
                 key, op = a[0], a[1]
+                if op == "set" and ikinds[key] == "nlist":
+                    argv += ["--" + key] + [str(x) for x in a[2]]       # nargs="+": --key 1 2 3
+                    continue
                 if op == "set":
                     opt, text = "--" + key, scalar_text(a[2], ikinds[key])
                 elif op == "append":
@@ -239,7 +278,15 @@ def run_case(case, root):
                 else:
                     opt, text = "--%s.%s" % (key, a[2]), scalar_text(a[3])
                 argv += [opt + "=" + text] if it["style"] == "eq" else [opt, text]
-            res = parser.parse_args(argv, env=env_arg)
+            if entry.get("via_sysargv"):
+                saved = sys.argv
+                sys.argv = ["prog"] + argv
+                try:
+                    res = parser.parse_args(env=env_arg)
+                finally:
+                    sys.argv = saved
+            else:
+                res = parser.parse_args(argv, env=env_arg)
         elif entry["kind"] == "env":
             res = parser.parse_env(environ) if use_dict else parser.parse_env()
         elif entry["kind"] == "string":
